@@ -6,7 +6,7 @@
    of loop iterations is bounded by the fuel = input length + 1 at every nesting level. *)
 From Coq Require Import ZArith List Bool.
 From KioV Require Import Base.Res Base.Prog Base.ProgProofs Codec.Value Codec.PrimCodec Codec.Reader Codec.Writer
-  Schema.Introspect Codec.Typed Codec.RoundtripProofs Codec.DecodeProofs Codec.Corollaries Codec.Examples.
+  Schema.Introspect Codec.Typed Codec.RoundtripProofs Codec.DecodeProofs Codec.Corollaries Codec.CostProofs Codec.Examples.
 Import ListNotations.
 
 Theorem c10_outcomes : forall (E : list cplan2) (ec : list Z), wf_env E = true -> forall i bs,
@@ -33,6 +33,14 @@ Theorem c10_lower_fuel_only_runs_out : forall (E : list cplan2) ec i f1 f2 bs, (
   \/ run (decoder (map reader_plan E) ec i f1) bs = Err EOutOfGas.
 Proof. exact fuel_lower. Qed.
 Print Assumptions c10_lower_fuel_only_runs_out.
+
+(* time proportional to the input size: the number of read_exact calls performed on ANY input is
+   at most a constant computed from the class alone times (input length + 1) *)
+Theorem c10_linear_cost : forall (E : list cplan2) (ec : list Z), wf_env E = true ->
+  forall i bs fuel, (i < length E)%nat -> (length bs < fuel)%nat ->
+  (run_cost (decoder (map reader_plan E) ec i fuel) bs <= weight E i * (length bs + 1))%nat.
+Proof. exact decode_cost_linear. Qed.
+Print Assumptions c10_linear_cost.
 
 (* non-vacuity: a corrupted encoding (unknown tag 7 with a 2-byte payload) is skipped, a bad
    marker fails with a permitted error *)
